@@ -507,8 +507,8 @@ func (p *parser) parseMapLiteral() Node {
 		return mapLit
 	}
 	types := make([]*Type, 0, len(mapLit.Pairs))
-	for _, n := range mapLit.Pairs {
-		types = append(types, n.Type())
+	for _, key := range mapLit.Order { // source order: the combined type must not depend on Go's map iteration
+		types = append(types, mapLit.Pairs[key].Type())
 	}
 	sub := combineTypes(types)
 	for key, val := range mapLit.Pairs {
